@@ -211,10 +211,10 @@ func (b *BlockWise[C]) Do(r *pool.Message, maxSzx SZX, maxMessageSize uint32, do
 		return nil, errors.New("invalid token")
 	}
 
-	expire, ok := r.Context().Deadline()
-	if !ok {
-		expire = time.Now().Add(b.expiration)
-	}
+	// The request is kept for as long as this call runs (it is removed below): without a deadline it never expires
+	// on its own. An expiry after the transfer timeout would take it away from under a call that is still waiting -
+	// for a retransmission to get through, or for a slow peer - and make the answer unusable when it comes.
+	expire, _ := r.Context().Deadline()
 	_, loaded := b.sendingMessagesCache.LoadOrStore(r.Token().Hash(), cache.NewElement(r, expire, nil))
 	if loaded {
 		return nil, errors.New("invalid token")
@@ -783,6 +783,8 @@ func (b *BlockWise[C]) processReceivedMessage(w *responsewriter.ResponseWriter[C
 	var cachedReceivedMessageGuard *messageGuard
 	if e := b.receivingMessagesCache.Load(tokenStr); e != nil {
 		cachedReceivedMessageGuard = e.Data()
+		// the transfer timeout limits the time between two blocks, not the whole transfer
+		e.ValidUntil.Store(validUntil)
 	}
 	if cachedReceivedMessageGuard == nil {
 		szx = getSzx(szx, maxSzx)
